@@ -37,7 +37,7 @@ func (c09) Gen(r *Rng, tier string, run int) *Trace {
 		kind = 'C'
 	}
 	g.emit(Op{Obj: target, M: "SetReadOnly", Args: []Val{vBool(true)}, Tag: "fence"}, true)
-	ctx := &synthCtx{self: target, stacks: w.stacks, conds: w.conds, uniq: &g.uniq, sink: w.sink}
+	ctx := &synthCtx{self: target, stacks: w.stacks, conds: w.conds, uniq: &g.uniq, sink: w.sink, fenced: true}
 	if kind == 'S' {
 		ctx.lenHint = g.lenOf(target)
 	}
@@ -71,18 +71,23 @@ func (c09) Gen(r *Rng, tier string, run int) *Trace {
 	// themselves, the read-only instance (perhaps nested in them) stays as it is
 	if r.Bool(0.35) {
 		var others []int
-		for _, s := range w.stacks {
+		for _, s := range append(append([]int{}, w.stacks...), w.conds...) {
 			if s != target {
 				others = append(others, s)
 			}
 		}
 		o := others[r.Intn(len(others))]
+		okind := byte('S')
+		if g.m.S[o] == nil {
+			okind = 'C'
+		}
 		octx := &synthCtx{self: o, stacks: w.stacks, conds: w.conds, uniq: &g.uniq, sink: w.sink, lenHint: 2}
-		oms := methodsOfClass('S', "mutator")
+		oms := methodsOfClass(okind, "mutator")
 		m := oms[r.Intn(len(oms))]
 		switch m.Name {
-		case "Free", "Marshal", "Transfer", "SetReadOnly", "ReadOnly", "SetMutex", "Mutex":
-			// (Free would drop the neighbour's handle; Transfer is below)
+		case "Free", "Marshal", "Transfer", "SetMutex", "Mutex", "Init", "SetExpression":
+			// (Free / Init would drop the neighbour's handle; Transfer is below;
+			// a new expression could close a cycle)
 		default:
 			burst = append(burst, Op{Obj: o, M: m.Name, Args: synthArgs(r, m, octx, r.Intn(3)), Tag: "burst"})
 		}
